@@ -329,7 +329,7 @@ func c20UploadKinds(files []string) []string {
 
 func TestVerif_C20_set(t *testing.T) {
 	s := verifh.New(t, "C20", "set",
-		"sequences of 1-5 setter calls {Client.SetCommonBasicAuth, Client.SetCommonBearerAuthToken, Request.SetBasicAuth, Request.SetBearerAuthToken} in any order (client-level calls also AFTER the request was created) with credentials from {\"\", one byte, colon, spaces, quotes, non-ASCII, long, random bytes} - every combination of empty user / empty password / both / empty token is enumerated first, at both levels, alone and overriding an earlier account -, with or without user information in the URL, over HTTP/1.1 and HTTP/2; answer = what the origin's net/http BasicAuth() and the bearer split recover (refused | none | some); model = Req.Auth.recoveredBasic / recoveredBearer; non-trivial = at least two calls or an empty component")
+		"sequences of 1-5 setter calls {Client.SetCommonBasicAuth, Client.SetCommonBearerAuthToken, Request.SetBasicAuth, Request.SetBearerAuthToken} in any order (client-level calls also AFTER the request was created) with credentials from {\"\", one byte, colon, spaces, quotes, non-ASCII, long, random bytes, scheme-like strings (\"Bearer abc\", \"bearer abc\", \"Basic QQ==\", ...)} - every combination of empty user / empty password / both / empty token is enumerated first, at both levels, alone and overriding an earlier account -, with or without user information in the URL, over HTTP/1.1 and HTTP/2; answer = what the origin's net/http BasicAuth() and the bearer split recover (refused | none | some); model = Req.Auth.recoveredBasic / recoveredBearer; non-trivial = at least two calls or an empty component")
 	r := s.Rand()
 	type op struct {
 		kind string // cb ct rb rt
